@@ -76,6 +76,7 @@ func (r *request) executeInternal(next bool) {
 				break
 			} else {
 				r.client.proxy.logger.Debug("failed to send request to host", zap.Stringer("host", r.host), zap.Error(err))
+				next = true // The host can't be used (anymore), a retry on the same host needs to move on too
 			}
 		}
 	}
